@@ -90,7 +90,7 @@ func c02Placements() ([]*zr.Program, []string) {
 }
 
 func checkC02(c *Ctx) {
-	c.rule = "programs: (a) bounded-exhaustive: every placement of one transfer statement (输出, 结束循环, 继续循环) in every 2-level nesting of {如果, 否则, 每当, 遍历-list, 遍历-dict}, inside and outside a method, with display marks before/after every transfer; (b) random statement trees (如果/再如/否则, 每当, 遍历 over list/dict literals and variables with 0/1/2 names, break/continue/输出 at any depth, methods, final expression statement, non-boolean conditions); (c) hand-written programs whose 每当 condition binds its result with 得到 (re-tested on every pass, with 继续循环 / 结束循环 / 输出, nested in 遍历 and in a method; expected value and display written down). Oracle: reference evaluator (result + ordered display trace); termination by evaluator tick budget 50x the reference step count. distinct_nontrivial = distinct (family, feature set / placement, outcome kind)"
+	c.rule = "programs: (a) bounded-exhaustive: every placement of one transfer statement (输出, 结束循环, 继续循环) in every 2-level nesting of {如果, 否则, 每当, 遍历-list, 遍历-dict}, inside and outside a method, with display marks before/after every transfer; (b) random statement trees (如果/再如/否则, 每当, 遍历 over list/dict literals and variables with 0/1/2 names, break/continue/输出 at any depth, methods, final expression statement, non-boolean conditions); (c) hand-written programs whose 每当 condition binds its result with 得到 (re-tested on every pass, with 继续循环 / 结束循环 / 输出, nested in 遍历 and in a method; 输出 in the body of a 每当 whose condition has an effect, displays, faults or is no longer boolean afterwards; expected value and display written down). Oracle: reference evaluator (result + ordered display trace); termination by evaluator tick budget 50x the reference step count. distinct_nontrivial = distinct (family, feature set / placement, outcome kind)"
 	c.assumptions = []string{"generated programs terminate by construction (loops have literal bounds)", "cases the reference marks unspecified (U1-U9 in DESIGN) are skipped and counted"}
 	rng := c.Rand("c02")
 	progs, shapes := c02Placements()
@@ -115,6 +115,17 @@ func checkC02(c *Ctx) {
 			{"while-cond/yield-name-gone-after", cnt + "每当 以器（增）得到果：\n\t令甲 = 1\n令果 = 5\n输出 果\n", "num(5)", ""},
 			{"while-cond/yield-nested-loops", cnt + "令和 = 0\n以项遍历【1，2】：\n\t令内 = （新建计）\n\t每当 以内（增）得到果：\n\t\t和 = 和 + 项\n输出 和\n", "num(9)", ""},
 		}
+		// 输出 inside a 每当 body ends the loop at once: the condition is not tested again (its effects
+		// would be further effects of the loop; a condition that cannot be evaluated any more in
+		// the state the 输出 left behind would turn the result into an error)
+		cnt2 := "定义计：\n\t其数 = 0\n\t如何增？\n\t\t其数 = 其数 + 1\n\t\t输出 真\n令器 = （新建计）\n"
+		hps = append(hps,
+			hp{"while-return/condition-with-effect", cnt2 + "如何找？\n\t输入物\n\t每当 以物（增）：\n\t\t如果 物之数 == 3：\n\t\t\t输出 “找到”\n\t输出 “无”\n令果 = （找：器）\n输出【果，器之数】\n", `list[text("找到"),num(3)]`, ""},
+			hp{"while-return/condition-faults-afterwards", "如何寻？\n\t令数列 = 【5，6，7】\n\t令位 = 0\n\t每当 数列#{位 + 1} > 0：\n\t\t位 = 位 + 1\n\t\t如果 位 == 3：\n\t\t\t输出 位\n\t输出 -1\n输出（寻）\n", "num(3)", ""},
+			hp{"while-return/program-level-condition-displays", "如何查？\n\t（显示：“c”）\n\t输出 真\n令次 = 0\n每当 （查）：\n\t次 = 次 + 1\n\t如果 次 == 2：\n\t\t输出 次\n", "num(2)", "c\nc\n"},
+			hp{"while-return/nested-in-iteration", cnt2 + "如何找？\n\t输入物\n\t以项遍历【1，2】：\n\t\t每当 以物（增）：\n\t\t\t输出 项\n\t输出 0\n令果 = （找：器）\n输出【果，器之数】\n", `list[num(1),num(1)]`, ""},
+			hp{"while-return/condition-no-longer-boolean", "如何寻？\n\t令旗 = 真\n\t每当 旗：\n\t\t旗 = 5\n\t\t输出 “完”\n\t输出 “无”\n输出（寻）\n", `text("完")`, ""},
+		)
 		hreqs := []Req{}
 		for _, h := range hps {
 			hreqs = append(hreqs, execReq(h.src))
